@@ -647,8 +647,15 @@ def heap_cases(chk, quick):
             base.append((xs, rng.choice([1000, 1]), rng.random() < 0.5, rng.choice([0, 1, 2, n // 2, n, n + 2])))
     reqs = [{"op": "ord", "f": "heap", "d": d, "k": -1, "n": m, "dec": dec, "xs": xs} for xs, d, dec, m in base]
     impl = run_harness(reqs)
+    mline = lambda q: f"ord heap {q['d']} {q['k']} {1 if q['dec'] else 0} {q['n']} {show(q['xs'])}"
+
+    def norm(r):
+        # implementation report -> the model's form (outcome class, no `missing` field)
+        p = r.split(" ")
+        return " ".join(["ok" if p[0] == "ok" else "fail"] + p[1:7] + p[9:])
+    model = run_model([mline(q) for q in reqs])
     freqs, fmeta = [], []
-    for (xs, d, dec, m), req, ri in zip(base, reqs, impl):
+    for (xs, d, dec, m), req, ri, rm in zip(base, reqs, impl, model):
         chk.evaluations += 1
         chk.count("unit:heap:ok")
         got = "PANIC " + ri["panic"] if "panic" in ri else ri.get("r", json.dumps(ri))
@@ -663,6 +670,9 @@ def heap_cases(chk, quick):
         if not ok:
             chk.violation("unit:heap:" + ("panic" if got.startswith("PANIC") else "wrong"), f"heap run (dec={dec}, n={m}) over {len(xs)} elements: {got[:200]}", {"harness": req})
             continue
+        if rm != norm(got):
+            chk.violation("tie:unit:heap", f"heap model disagrees with the implementation (which is right): model={rm[:160]} impl={got[:160]}",
+                          {"harness": req, "model": mline(req)}, no_input=True)
         ncmp = int(parts[10])
         ks = range(ncmp) if ncmp <= 300 else sorted(rng.sample(range(ncmp), 60))
         for k in ks:
@@ -670,7 +680,8 @@ def heap_cases(chk, quick):
             freqs.append({"op": "ord", "f": "heap", "d": d, "k": k, "kind": kind, "n": m, "dec": dec, "xs": xs})
             fmeta.append((xs, k, kind))
     impl = run_harness(freqs)
-    for (xs, k, kind), req, ri in zip(fmeta, freqs, impl):
+    model = run_model([mline(q) for q in freqs])
+    for (xs, k, kind), req, ri, rm in zip(fmeta, freqs, impl, model):
         chk.evaluations += 1
         chk.count("unit:heap:fail-at-k")
         got = "PANIC " + ri["panic"] if "panic" in ri else ri.get("r", json.dumps(ri))
@@ -683,6 +694,11 @@ def heap_cases(chk, quick):
         if not good:
             chk.violation("unit:heap:fail:" + ("panic" if got.startswith("PANIC") else "lost-or-duplicated"),
                           f"heap with the comparator failing ({kind}) at comparison {k}: {got[:200]} conserved={ri.get('conserved')}", {"harness": req})
+            continue
+        chk.nontrivial.add(("heapfail", len(xs), k, tuple(xs[:4])))
+        if rm != norm(got):
+            chk.violation("tie:unit:heap:fail", f"heap state after a failing comparator differs: model={rm[:200]} impl={got[:200]}",
+                          {"harness": req, "model": mline(req)}, no_input=True)
 
 
 def _resp_fail_local(r):
